@@ -77,8 +77,12 @@ func mempoolCases(run *lib.Run, rng *lib.Rng, st *lib.Stats, id *int) {
 			t := target{name: "mempool.txFeeOrderedList", fresh: func() serializable {
 				return reflect.New(feesPtr.Type().Elem()).Interface().(serializable)
 			}}
+			term := txFeeListC(feesPtr.Elem()) // before the round trip: what was put in
 			diffs, sites, wire, outcome := roundTrip(t, x)
 			report(run, st, id, t.name, i, mode, diffs, sites, wire, outcome)
+			if outcome == "ok" && addModelCase != nil {
+				addModelCase("tx_fee_list", wire, term)
+			}
 		}
 
 		// (b)+(c)+(d) checkpoint
